@@ -860,6 +860,11 @@ func genBatch(prop string, g *Gen, m *Model, rng *SplitMix) []Cmd {
 			first = mutation()
 		}
 		cmds = []Cmd{first}
+		if first.Op == "set" && first.State != nil && finished(*first.State) && rng.Chance(2, 3) {
+			// the task may be pruned as soon as it is finished - while the
+			// command that finished it is still composing its reply
+			cmds = append(cmds, Cmd{Op: "prune", Yes: true})
+		}
 		n := 1 + rng.Intn(3)
 		for i := 0; i < n; i++ {
 			cmds = append(cmds, mutation())
